@@ -154,6 +154,7 @@ type Shard struct {
 	Infra       []string    `json:"infra,omitempty"` // infrastructure errors (divergence, drift): exit 2
 	WallS       float64     `json:"wall_s"`
 	Assumptions []string    `json:"assumptions,omitempty"`
+	Suppressed  int         `json:"suppressed_violations,omitempty"`
 
 	env   *Env
 	start time.Time
@@ -201,6 +202,11 @@ func (s *Shard) Violate(part, signature, detail string, replay any) {
 		return
 	}
 	s.sigs[signature] = true
+	if len(s.Violations) >= 24 {
+		// never flood the replay directory: further distinct violations are only counted
+		s.Suppressed++
+		return
+	}
 	h := sha256.Sum256([]byte(signature))
 	name := fmt.Sprintf("%s-%x.json", s.Property, h[:6])
 	path := filepath.Join(s.env.ReplayDir, name)
